@@ -257,3 +257,28 @@ Fixpoint apply_edits_u (us : list unit) (pos : nat) (es : list edit) {struct us}
 Definition render_units (holds : list N -> bool) (vars : list (list N * list N)) (us : list unit) : list unit :=
   let u1 := apply_edits_u us 0 (cond_edits (find_conds holds (utext us) 0 0)) in
   apply_edits_u u1 0 (var_edits vars (find_vars (utext u1) 0 0)).
+
+(* ---------------- the same rendering on plain text ---------------- *)
+(* the edits on a byte string: what a reader who ignores all formatting sees *)
+Fixpoint apply_edits_t (cs : list N) (pos : nat) (es : list edit) {struct cs} : list N :=
+  match cs with
+  | [] => []
+  | b :: r =>
+      let fix skip (es : list edit) : list edit :=
+        match es with
+        | e :: es' => if Nat.leb (e_end e) pos && Nat.ltb (e_start e) (e_end e) then skip es' else es
+        | [] => []
+        end in
+      match skip es with
+      | e :: es' =>
+          if Nat.leb (e_start e) pos && Nat.ltb pos (e_end e) then
+            (if Nat.eqb pos (e_start e) then e_with e else []) ++ apply_edits_t r (S pos) (e :: es')
+          else b :: apply_edits_t r (S pos) (e :: es')
+      | [] => b :: apply_edits_t r (S pos) []
+      end
+  end.
+
+(* the rendering of the text of a paragraph: the conditionals are resolved, then the variables are replaced *)
+Definition render_text (holds : list N -> bool) (vars : list (list N * list N)) (cs : list N) : list N :=
+  let t1 := apply_edits_t cs 0 (cond_edits (find_conds holds cs 0 0)) in
+  apply_edits_t t1 0 (var_edits vars (find_vars t1 0 0)).
